@@ -2536,7 +2536,7 @@ CLAUSES = [
                 'minwidth/even/sizemults, vacuum lengthens the cut vector only, surfacearea; in half of the cases after one or two '
                 'earlier surface() / set_shift() calls with other arguments on the same object (only the shift persists)'),
     Clause('fault', oracle_fault, fault_cases, quick=570, thorough=11500,
-           min_share={'nt': 0.2, 'built': 0.4, 'shifted': 0.3, 'both_sides': 0.35, 'lattice_nonzero': 0.05, 'custom_avect': 0.1,
+           min_share={'nt': 0.2, 'built': 0.4, 'shifted': 0.3, 'both_sides': 0.35, 'lattice_nonzero': 0.02, 'custom_avect': 0.1,
                       'onplane_exact': 0.015, 'itermap': 0.07, 'refusal_avect': 0.025, 'kind_faultshift': 0.03, 'fpos_rel': 0.12,
                       'a1_only': 0.06, 'centred': 0.12,
                       'history_second_surface': 0.25, 'history_third_surface': 0.11, 'history_faultpos_defaulted_after_set': 0.07,
